@@ -115,6 +115,32 @@ pub fn iter_laws<X, I: ExactSizeIterator<Item = X>>(mk: impl Fn() -> I, show: im
             return Some(format!("after nth({}) the rest is {:?} != {:?}", k, rest, want_rest));
         }
     }
+    // positions past the end: `None`, never a panic (the callers guard the whole check)
+    for k in [n + 1, n + 2, n + 7, usize::MAX / 2, usize::MAX] {
+        if mk().nth(k).is_some() {
+            return Some(format!("nth({}) of a {}-element sequence is not None", k, n));
+        }
+        if mk().skip(k).next().is_some() || mk().skip(k).len() != 0 {
+            return Some(format!("skip({}) of a {}-element sequence is not empty", k, n));
+        }
+    }
+    for step in [n + 1, n + 3] {
+        let got: Vec<String> = mk().step_by(step.max(1)).map(&show).collect();
+        let want_st: Vec<String> = want.iter().step_by(step.max(1)).cloned().collect();
+        if got != want_st {
+            return Some(format!("step_by({}) {:?} != {:?}", step, got, want_st));
+        }
+    }
+    // exhausted iterator: stays exhausted, len 0
+    {
+        let mut it = mk();
+        for _ in 0..n {
+            let _ = it.next();
+        }
+        if it.next().is_some() || it.next().is_some() || it.len() != 0 || it.nth(0).is_some() || it.nth(3).is_some() {
+            return Some("an exhausted iterator yields again / reports a non-zero len".to_string());
+        }
+    }
     let folded = mk().fold(Vec::new(), |mut acc, x| {
         acc.push(show(x));
         acc
